@@ -71,6 +71,7 @@ fn denull(v: &Value) -> Value {
     match v {
         Value::String(s) if s == "__null__" => Value::Null,
         Value::Array(a) => Value::Array(a.iter().map(denull).collect()),
+        Value::Object(o) if o.contains_key("__rep__") => Value::String(o["__rep__"].as_str().unwrap().repeat(o["n"].as_u64().unwrap() as usize)),
         Value::Object(o) => Value::Object(o.iter().map(|(k, x)| (k.clone(), denull(x))).collect()),
         other => other.clone(),
     }
@@ -92,8 +93,81 @@ pub fn eval_le_w(t: &Value) -> Vec<u8> {
     out
 }
 
+fn base64_nopad(b: &[u8]) -> String {
+    const A: &[u8; 64] = b"ABCDEFGHIJKLMNOPQRSTUVWXYZabcdefghijklmnopqrstuvwxyz0123456789+/";
+    let mut out = String::new();
+    for ch in b.chunks(3) {
+        let n = (ch[0] as u32) << 16 | (*ch.get(1).unwrap_or(&0) as u32) << 8 | *ch.get(2).unwrap_or(&0) as u32;
+        for i in 0..(ch.len() + 1) {
+            out.push(A[((n >> (18 - 6 * i)) & 63) as usize] as char);
+        }
+    }
+    out
+}
+
+/// Module schemas: the unprefixed bytes of the specification, with and without the version prefix, with version hints, in base64.
+fn module(v: &Value, stats: &mut std::collections::BTreeMap<String, u64>) -> Result<(), (String, Value, Value)> {
+    use cc::schema::{VersionedModuleSchema as VMS, VersionedSchemaError as VE};
+    let ver = v["ver"].as_u64().unwrap() as u8;
+    *stats.entry(format!("module:V{}", ver)).or_default() += 1;
+    let mb = eval_le_w(&v["mb"]);
+    let mut prefixed = vec![0xff, 0xff, ver];
+    prefixed.extend_from_slice(&mb);
+    let version_of = |m: &VMS| match m {
+        VMS::V0(_) => 0u8,
+        VMS::V1(_) => 1,
+        VMS::V2(_) => 2,
+        VMS::V3(_) => 3,
+    };
+    let check = |what: &str, r: Result<VMS, VE>| -> Result<VMS, (String, Value, Value)> {
+        match r {
+            Ok(m) if version_of(&m) == ver && cc::to_bytes(&m) == prefixed => Ok(m),
+            Ok(m) => Err((format!("{}: parsed module re-encodes to the versioned form", what), json!(hex::encode(&prefixed)), json!(hex::encode(cc::to_bytes(&m))))),
+            Err(e) => Err((format!("{}: a valid module schema is refused", what), json!("ok"), json!(format!("{:?}", e)))),
+        }
+    };
+    // with the version prefix the hint does not matter
+    for hint in [None, Some(ver), Some((ver + 1) % 4), Some(9)] {
+        check(&format!("VersionedModuleSchema::new(prefixed, {:?})", hint), VMS::new(&prefixed, &hint))?;
+    }
+    let m = check("VersionedModuleSchema::new(unprefixed, matching hint)", VMS::new(&mb, &Some(ver)))?;
+    check("from_base64_str", VMS::from_base64_str(&base64_nopad(&prefixed)))?;
+    match VMS::new(&mb, &None) {
+        Err(VE::MissingSchemaVersion) => {}
+        other => return Err(("unprefixed module without a version hint".into(), json!("MissingSchemaVersion"), json!(format!("{:?}", other.map(|m| version_of(&m)))))),
+    }
+    match VMS::new(&mb, &Some(9)) {
+        Err(VE::InvalidSchemaVersion) => {}
+        other => return Err(("unprefixed module with version hint 9".into(), json!("InvalidSchemaVersion"), json!(format!("{:?}", other.map(|m| version_of(&m)))))),
+    }
+    // the parameter types that were put in come out
+    let exp_ty = |x: &Value| -> Option<Vec<u8>> { x.as_array().and_then(|a| a.first()).map(eval_le_w) };
+    if v["has_init"].as_bool().unwrap() {
+        let got = m.get_init_param_schema("c").ok().map(|t| cc::to_bytes(&t));
+        if got != exp_ty(&v["init_param"]) {
+            return Err(("get_init_param_schema".into(), json!(exp_ty(&v["init_param"]).map(hex::encode)), json!(got.map(hex::encode))));
+        }
+    }
+    if v["has_recv"].as_bool().unwrap() {
+        let got = m.get_receive_param_schema("c", "r").ok().map(|t| cc::to_bytes(&t));
+        if got != exp_ty(&v["recv_param"]) {
+            return Err(("get_receive_param_schema".into(), json!(exp_ty(&v["recv_param"]).map(hex::encode)), json!(got.map(hex::encode))));
+        }
+    }
+    // truncations of the versioned form are refused
+    for cut in 0..prefixed.len() {
+        if VMS::new(&prefixed[..cut], &None).is_ok() {
+            return Err((format!("a module schema truncated to {} of {} bytes is accepted", cut, prefixed.len()), json!("error"), json!("ok")));
+        }
+    }
+    Ok(())
+}
+
 fn one(v: &Value, stats: &mut std::collections::BTreeMap<String, u64>) -> Result<(), (String, Value, Value)> {
     let kind = v["kind"].as_str().unwrap();
+    if kind == "module" {
+        return module(v, stats);
+    }
     let t = ty(&v["t"]);
     let j = denull(&v["j"]);
     let b = eval_le_w(&v["b"]);
